@@ -4843,3 +4843,16 @@ mod tests {
         );
     }
 }
+
+/// Verification hooks (H5): thin wrappers exposing private pure helpers for differential
+/// evaluation. Compiled only under `--cfg kyrodb_verif`.
+#[cfg(kyrodb_verif)]
+impl TieredEngine {
+    pub fn verif_merge_knn_results(
+        hot_results: Vec<(u64, f32)>,
+        cold_results: Vec<SearchResult>,
+        k: usize,
+    ) -> Vec<SearchResult> {
+        Self::merge_knn_results(hot_results, cold_results, k)
+    }
+}
